@@ -33,6 +33,16 @@ CHECKS = {
              "these histories; bit-identical repetition is an implementation-side test. Trusted: Coq kernel, harness/exactops.py translation, prog_impl.py runner. No axioms.",
         technique="Coq proofs (induction over clear_graph's recursion and over histories) + exact-integer history correspondence + weakref liveness correspondence",
     ),
+    "C08": dict(
+        text="Lock automaton Model/LockMgr.v: a transcription of lock_management.py (three tables, lock/release, bases-first ordering, waiting views, NumPy's writeable-flag rules, ids as observed) with machine-checked "
+             "invariants over all well-formed event sequences (see Props/C08.v). Tie: (1) 1500 (12000 thorough) random event sequences drive the REAL functions with real ndarrays; flags, counters, tracked status, waiting sets and table "
+             "sizes are compared with the model after every event inside Coq (id re-use and array death included); (2) property oracle on real tensor histories: every array listed by a live, guarded op with no cleared upstream tensor is "
+             "read-only; at quiescence flags are restored, natively read-only arrays stay read-only, tables are empty.",
+        design_ref="DESIGN.md 5 (C08)",
+        note="The invariants are proved for sequences without id re-use and under the lifecycle rule (an array listed by a live op does not die); the correspondence also exercises sequences outside these hypotheses. The link "
+             "'Tensor._op emits exactly these lock events' is checked by the history oracle, not proved. Trusted: Coq kernel, harness. No axioms.",
+        technique="Coq invariant proofs over the lock automaton + event-sequence correspondence by vm_compute + history-level property oracle",
+    ),
     "C09": dict(
         text="Machine-checked proofs (Coq) over Model/GraphP.v: exact characterisation of when backward raises InvalidBackprop (some processed tensor has a non-constant input with an empty consumer set); when it "
              "returns normally the stored gradients are the adjoint of the graph as the code sees it. The property oracle 'raise, or exactly the gradients of the computation as recorded' is evaluated with the proved model on "
@@ -139,7 +149,7 @@ def main():
 
 
 # fix: commits in /repo (filled in as they are made)
-SOURCE_COMMITS = ["1caf915", "cac9d7b", "4b729bd", "9cd2617"]
+SOURCE_COMMITS = ["1caf915", "cac9d7b", "4b729bd", "9cd2617", "683fb85"]
 
 if __name__ == "__main__":
     main()
